@@ -470,3 +470,124 @@ def cyclepath(repo):
     res.samples = [f"first component only: {first_only}; cycle pass after field references are resolved: {rechecked}"]
     res.analysed = [DC, glue.rel]
     return res
+
+
+def edgeacc(repo, schema=None, sites=None):
+    """R-EDGEACC (C15): the dependency graphs are built by traversal actions that are called once per reference, with
+    the graph handed in as a shared traversal parameter and the key being the *enclosing* named object -- an object
+    that mentions two names is visited twice with the same key.  Every store into such a parameter therefore
+    accumulates (`g[k] |= ...`, `g[k].add(...)`, `g.setdefault(k, set())`); a plain `g[k] = {ref}` keeps only the
+    last edge and a cycle through an earlier reference disappears from the graph."""
+    from .traversal import collect_sites
+    from ..irschema import Schema
+    res = RuleResult("R-EDGEACC")
+    schema = schema or Schema(repo)
+    sites = sites if sites is not None else collect_sites(repo, schema)
+    seen = set()
+    for s in sites:
+        if not s.module.rel.endswith("front_end/dependency_checker.py"):
+            continue
+        funcs = [s.action] + [f for fs in s.incidental.values() for f in fs]
+        for f in funcs:
+            if f is None or not hasattr(f, "node") or f.fq in seen:
+                continue
+            seen.add(f.fq)
+            params = {a.arg for a in f.node.args.args[1:]} | {a.arg for a in f.node.args.kwonlyargs}
+            params -= {"errors", "source_file_name", "ir"}
+            for n in walk_no_nested_funcs(f.node):
+                if isinstance(n, ast.AugAssign) and isinstance(n.target, ast.Subscript) and isinstance(n.target.value, ast.Name) \
+                        and n.target.value.id in params:
+                    res.instances += 1
+                elif isinstance(n, ast.Call) and isinstance(n.func, ast.Attribute) and n.func.attr in ("setdefault", "add", "update") \
+                        and any(isinstance(x, ast.Name) and x.id in params for x in ast.walk(n.func.value)):
+                    res.instances += 1
+                elif isinstance(n, ast.Assign):
+                    for t in n.targets:
+                        if isinstance(t, ast.Subscript) and isinstance(t.value, ast.Name) and t.value.id in params:
+                            v = n.value
+                            empty = (isinstance(v, ast.Call) and call_name(v) in ("set", "dict", "list", "frozenset") and not v.args) or \
+                                (isinstance(v, (ast.Dict, ast.List, ast.Set, ast.Tuple)) and not (getattr(v, "keys", None) or getattr(v, "elts", None)))
+                            # `g[k] = g[k] | {...}` / `g[k] = g.get(k, set()) | {...}` still accumulate
+                            reads_self = any(isinstance(x, ast.Name) and x.id == t.value.id for x in ast.walk(v))
+                            guarded = False
+                            node = n
+                            while node is not None and node is not f.node:
+                                parent = s.module.parent(node) if f.file == s.module.rel else repo.by_rel[f.file].parent(node)
+                                if isinstance(parent, ast.If) and " not in " in ast.unparse(parent.test) and node in parent.body:
+                                    guarded = True
+                                node = parent
+                            res.instances += 1
+                            if not empty and not reads_self and not guarded:
+                                res.add(f"{f.file}|{f.qualname}|{t.value.id}", f"{f.qualname} (traversal action at {s.where}) stores "
+                                        f"`{ast.unparse(n)[:80]}`: the action runs once per reference with the enclosing object as the "
+                                        "key, so the edges recorded for earlier references of the same object are lost and a cycle "
+                                        "through them is not found", f.file, n.lineno, f.qualname)
+    if res.instances < 3 and not res.findings:
+        raise AnalysisError(f"only {res.instances} stores into dependency-graph parameters recognised")
+    res.analysed = ["compiler/front_end/dependency_checker.py"]
+    return res
+
+
+def natsort(repo):
+    """R-NATSORT (C17): canonical names of anonymous `bits` fields carry a process-wide counter
+    (`emboss_reserved_anonymous_field_<n>`), and C17 allows output to differ between interleavings only by that
+    numbering.  Ordering such names as plain strings makes `..._10` sort before `..._9` while `..._1` sorts before
+    `..._2`: the order of the notes of a dependency cycle then depends on how many anonymous fields were parsed earlier
+    in the process.  In dependency_checker.py every sort that decides the order of reported nodes (a `sorted`/`.sort`
+    in, or in a helper called from, a function that builds `error.error`/`error.note`) orders digit runs numerically:
+    its `key=` resolves to a function that splits on digit runs and converts them with `int`."""
+    import re as _re
+    res = RuleResult("R-NATSORT")
+    m = repo.mod(DC)
+    funcs = {f.name: f for f in m.top_funcs()}
+
+    def natural_fn(f):
+        src = ast.unparse(f.node)
+        return bool(_re.search(r"re\.(split|findall|finditer)\(", src)) and ("[0-9]" in src or "\\\\d" in src or "\\d" in src) and "int(" in src
+
+    def key_is_natural(call, depth=0):
+        for k in call.keywords:
+            if k.arg == "key":
+                names = {x.id for x in ast.walk(k.value) if isinstance(x, ast.Name)}
+                if any(n in funcs and (natural_fn(funcs[n]) or sorter_is_natural(funcs[n], depth + 1)) for n in names):
+                    return True
+        return False
+
+    def sorter_is_natural(f, depth=0):
+        """helper that returns a naturally sorted list"""
+        if depth > 3:
+            return False
+        sorts = [c for c in walk_no_nested_funcs(f.node) if isinstance(c, ast.Call) and (call_name(c) == "sorted" or
+                 (isinstance(c.func, ast.Attribute) and c.func.attr == "sort"))]
+        return bool(sorts) and all(key_is_natural(c, depth) for c in sorts)
+    reporters = [f for f in m.top_funcs() if any(isinstance(c, ast.Call) and (call_name(c) or "") in ("error.error", "error.note")
+                                                 for c in walk_no_nested_funcs(f.node))]
+    if not reporters:
+        raise AnalysisError("dependency_checker: no function builds diagnostics")
+    for f in reporters:
+        for c in walk_no_nested_funcs(f.node):
+            if not isinstance(c, ast.Call):
+                continue
+            is_sort = call_name(c) == "sorted" or (isinstance(c.func, ast.Attribute) and c.func.attr == "sort")
+            if not is_sort:
+                continue
+            res.instances += 1
+            if not key_is_natural(c):
+                res.add(f"{m.rel}|{f.name}|{ast.unparse(c)[:40]}", f"{f.name}: `{ast.unparse(c)[:80]}` orders node names as plain strings; "
+                        "anonymous field names end in a process-wide counter, so `..._10` sorts before `..._9`: the order of the "
+                        "reported cycle members changes with the number of anonymous fields parsed earlier in the process",
+                        m.rel, c.lineno, f.name)
+    for name, f in funcs.items():
+        if f in reporters:
+            continue
+        if any(isinstance(c, ast.Call) and call_name(c) == name for r in reporters for c in walk_no_nested_funcs(r.node)):
+            for c in walk_no_nested_funcs(f.node):
+                if isinstance(c, ast.Call) and (call_name(c) == "sorted" or (isinstance(c.func, ast.Attribute) and c.func.attr == "sort")):
+                    res.instances += 1
+                    if not key_is_natural(c):
+                        res.add(f"{m.rel}|{name}|{ast.unparse(c)[:40]}", f"{name} (used by a reporting function): `{ast.unparse(c)[:80]}` orders "
+                                "node names as plain strings (see R-NATSORT)", m.rel, c.lineno, name)
+    if res.instances < 3 and not res.findings:
+        raise AnalysisError(f"only {res.instances} sorts of reported nodes found")
+    res.analysed = [m.rel]
+    return res
